@@ -168,4 +168,33 @@ example : acceptAll { msg := [], env := [70, 0, 0], received := [82], hdr := [11
      .linkTodo true] = none := by
   decide
 
+/-- a truncated envelope (EOF inside the sender) and, inside `cleanup()`, a failing
+`unlink(intd/<n>)`: the program stops cleaning there (exit 54) and what is left is mess+intd -/
+example : (acceptAll { msg := [104], env := [70, 97], received := [82], hdr := [117] } {}
+    [.alarm Gen.DEATH, .openPid 1 true, .fstatPid true, .linkMess true, .unlinkPid true,
+     .read 0 1, .read 0 0, .write .mess [82, 104], .fsync .mess true, .openIntd true, .read 1 2, .read 1 0,
+     .ftrunc .intd true, .unlinkF .intd false, .exit 54]).map (·.pc) = some (.exited 54) := by
+  decide
+
+example : let fs := applyAll {} ([.alarm Gen.DEATH, .openPid 1 true, .fstatPid true, .linkMess true, .unlinkPid true,
+     .read 0 1, .read 0 0, .write .mess [82, 104], .fsync .mess true, .openIntd true, .read 1 2, .read 1 0,
+     .ftrunc .intd true, .unlinkF .intd false, .exit 54] : List Ev)
+    (fs.pidName, fs.messName, fs.intdName, fs.todoName) = (false, true, true, false) := by
+  decide
+
+/-- going on to truncate and remove mess/<n> after `unlink(intd/<n>)` failed is not a run of this
+program (it would leave intd without mess, which nothing collects) -/
+example : acceptAll { msg := [104], env := [70, 97], received := [82], hdr := [117] } {}
+    [.alarm Gen.DEATH, .openPid 1 true, .fstatPid true, .linkMess true, .unlinkPid true,
+     .read 0 1, .read 0 0, .write .mess [82, 104], .fsync .mess true, .openIntd true, .read 1 2, .read 1 0,
+     .ftrunc .intd true, .unlinkF .intd false, .ftrunc .mess true] = none := by
+  decide
+
+/-- two failures in one run: the envelope file cannot be written, then `unlink(intd/<n>)` fails -/
+example : (acceptAll { msg := [104], env := [70, 0, 0], received := [82], hdr := [117] } {}
+    [.alarm Gen.DEATH, .openPid 1 true, .fstatPid true, .linkMess true, .unlinkPid true,
+     .read 0 1, .read 0 0, .write .mess [82, 104], .fsync .mess true, .openIntd true, .read 1 3,
+     .writeErr .intd false, .ftrunc .intd false, .unlinkF .intd false, .exit 53]).map (·.pc) = some (.exited 53) := by
+  decide
+
 end Nq.Props.C01
